@@ -3,11 +3,12 @@ CONSTANTS
   N = 3
   WithQueries = TRUE
   WithMixed = TRUE
-  HeavyLaws = FALSE
+  HeavyLaws = TRUE
   Mutant <- NoMutant
 VIEW View
 INVARIANT GroupInv
 INVARIANT ImplMatchesRef
+INVARIANT ImplRoutes
 INVARIANT Bounds
 INVARIANT Symmetry
 INVARIANT SubAdditivity
